@@ -103,39 +103,44 @@ theorem pushed_runOps (d v : Nat) : pushed (runOps d v) = v := by
 
 def leakSum (steps : List Step) : Nat := (steps.map failLeak).sum
 
-theorem history_leaks : ∀ (steps : List Step) (s : Stack), (∀ st ∈ steps, st.topLevel = true) →
+theorem history_leaks : ∀ (steps : List Step) (s : Stack),
     runHistory resetStack steps s = ⟨s.frames, s.values + leakSum steps⟩
-  | [], s, _ => by simp [runHistory, leakSum]
-  | .ok d v :: steps, s, h => by
-    have := history_leaks steps s (fun st hs => h st (List.mem_cons_of_mem _ hs))
+  | [], s => by simp [runHistory, leakSum]
+  | .ok d v :: steps, s => by
+    have := history_leaks steps s
     simp only [runHistory, List.foldl_cons, stepWith] at this ⊢
     rw [this]; simp [leakSum, failLeak]
-  | .fail d v :: steps, s, h => by
+  | .fail d v :: steps, s => by
     have h1 : stepWith resetStack s (.fail d v) = ⟨s.frames, s.values + v⟩ := by
       simp only [stepWith]; rw [reset_after_run, pushed_runOps]
-    have := history_leaks steps ⟨s.frames, s.values + v⟩ (fun st hs => h st (List.mem_cons_of_mem _ hs))
+    have := history_leaks steps ⟨s.frames, s.values + v⟩
     simp only [runHistory, List.foldl_cons] at this ⊢
     rw [h1, this]; simp [leakSum, failLeak]; omega
-  | .hostFail d v :: steps, s, h => by
-    have := h (.hostFail d v) List.mem_cons_self
-    simp [Step.topLevel] at this
+  | .hostFail d v :: steps, s => by
+    have h1 : stepWith resetStack s (.hostFail d v) = ⟨s.frames, s.values + v⟩ := by
+      simp only [stepWith]; rw [reset_after_run, pushed_runOps]
+    have := history_leaks steps ⟨s.frames, s.values + v⟩
+    simp only [runHistory, List.foldl_cons] at this ⊢
+    rw [h1, this]; simp [leakSum, failLeak]; omega
 
-theorem history_fixed : ∀ (steps : List Step) (s : Stack), (∀ st ∈ steps, st.topLevel = true) →
-    runHistory resetFixed steps s = s
-  | [], s, _ => by simp [runHistory]
-  | .ok d v :: steps, s, h => by
-    have := history_fixed steps s (fun st hs => h st (List.mem_cons_of_mem _ hs))
+theorem history_fixed : ∀ (steps : List Step) (s : Stack), runHistory resetFixed steps s = s
+  | [], s => by simp [runHistory]
+  | .ok d v :: steps, s => by
+    have := history_fixed steps s
     simp only [runHistory, List.foldl_cons, stepWith] at this ⊢
     exact this
-  | .fail d v :: steps, s, h => by
+  | .fail d v :: steps, s => by
     have h1 : stepWith resetFixed s (.fail d v) = s := by
       simp only [stepWith]; exact resetFixed_after_run s _
-    have := history_fixed steps s (fun st hs => h st (List.mem_cons_of_mem _ hs))
+    have := history_fixed steps s
     simp only [runHistory, List.foldl_cons] at this ⊢
     rw [h1]; exact this
-  | .hostFail d v :: steps, s, h => by
-    have := h (.hostFail d v) List.mem_cons_self
-    simp [Step.topLevel] at this
+  | .hostFail d v :: steps, s => by
+    have h1 : stepWith resetFixed s (.hostFail d v) = s := by
+      simp only [stepWith]; exact resetFixed_after_run s _
+    have := history_fixed steps s
+    simp only [runHistory, List.foldl_cons] at this ⊢
+    rw [h1]; exact this
 
 def enters : List Op → Nat
   | [] => 0
@@ -161,11 +166,11 @@ theorem enters_runOps (d v : Nat) : enters (runOps d v) = d := by
   | zero => simp [enters]
   | succ n ih => simp [List.replicate_succ, enters] at ih ⊢; omega
 
-/-- A failed host call of a Gluon function leaves `d` frames and `v` values behind. -/
+/-- Old rule: a failed host call of a Gluon function left `d` frames and `v` values behind. -/
 theorem hostFail_leaves (reset : Nat → Nat → Stack → Stack) (s : Stack) (d v : Nat) :
-    (stepWith reset s (.hostFail d v)).frames.length = s.frames.length + d ∧
-    (stepWith reset s (.hostFail d v)).values = s.values + v := by
-  simp only [stepWith]
+    (stepWithOldHost reset s (.hostFail d v)).frames.length = s.frames.length + d ∧
+    (stepWithOldHost reset s (.hostFail d v)).values = s.values + v := by
+  simp only [stepWithOldHost]
   rw [run_frames_length, run_values, enters_runOps, pushed_runOps]
   exact ⟨rfl, rfl⟩
 
